@@ -10,44 +10,56 @@ Open Scope Z_scope.
 (* ---- experiments as a fold over the process-wide state (DatasetProcessor.process_all_samples): for every sequence of experiments, every
         state the process starts in and both modes (main process / process pool), experiment number i gets exactly the output of a
         stand-alone run on it *)
-Theorem C10_samples_independent : forall dmi dme st pool pool' es g,
-  run_samples (process_sample_fix dmi dme st pool) es g = map (fun e => fst (process_sample_fix dmi dme st pool' e (init_state dmi dme))) es.
+Theorem C10_samples_independent : forall dmi dme st rgfn pool pool' es g,
+  run_samples (process_sample_fix dmi dme st rgfn pool) es g = map (fun e => fst (process_sample_fix dmi dme st rgfn pool' e (init_state dmi dme rgfn))) es.
 Proof. exact samples_independent. Qed.
 Print Assumptions C10_samples_independent.
-Theorem C10_samples_order_irrelevant : forall dmi dme st pool es es' g g' e, In e es -> In e es' ->
-  exists o, In o (run_samples (process_sample_fix dmi dme st pool) es g) /\ In o (run_samples (process_sample_fix dmi dme st pool) es' g') /\
-            o = fst (process_sample_fix dmi dme st pool e (init_state dmi dme)).
+Theorem C10_samples_order_irrelevant : forall dmi dme st rgfn pool es es' g g' e, In e es -> In e es' ->
+  exists o, In o (run_samples (process_sample_fix dmi dme st rgfn pool) es g) /\ In o (run_samples (process_sample_fix dmi dme st rgfn pool) es' g') /\
+            o = fst (process_sample_fix dmi dme st rgfn pool e (init_state dmi dme rgfn)).
 Proof. exact samples_order_irrelevant. Qed.
 Print Assumptions C10_samples_order_irrelevant.
 Example C10_samples_independent_example :
-  run_samples (process_sample_fix false false PAuto false) [ex_high; ex_unmapped; ex_low; ex_low] (init_state false false)
-  = map (fun e => fst (process_sample_fix false false PAuto true e (init_state false false))) [ex_high; ex_unmapped; ex_low; ex_low].
+  run_samples (process_sample_fix false false PAuto true false) [ex_high; ex_unmapped; ex_low; ex_low; ex_replicas; ex_low] (init_state false false true)
+  = map (fun e => fst (process_sample_fix false false PAuto true true e (init_state false false true))) [ex_high; ex_unmapped; ex_low; ex_low; ex_replicas; ex_low].
 Proof. exact samples_independent_fix_on_the_witnesses. Qed.
 
 (* ---- the code before the repairs: three leaks, each refuting the statement on a two-experiment sequence *)
 (* args.require_monointronic_polya / require_monoexonic_polya are or-ed with their own previous value *)
 Example C10_samples_independent_current_code_refuted_sticky_flags :
-  run_samples (process_sample_cur PAuto true) [ex_high; ex_low] (init_state false false)
-  <> map (fun e => fst (process_sample_cur PAuto true e (init_state false false))) [ex_high; ex_low].
+  run_samples (process_sample_cur PAuto false true) [ex_high; ex_low] (init_state false false false)
+  <> map (fun e => fst (process_sample_cur PAuto false true e (init_state false false false))) [ex_high; ex_low].
 Proof. exact samples_independent_refuted_sticky_flags. Qed.
 (* ... exactly: the flag of experiment k is the strategy applied to (default or any experiment up to k had enough polyA reads) *)
-Theorem C10_sticky_flags_characterisation_current_code : forall st pool es dmi dme,
-  map o_mono_intronic (run_samples (process_sample_cur st pool) es (init_state dmi dme))
+Theorem C10_sticky_flags_characterisation_current_code : forall st rgfn pool es dmi dme,
+  map o_mono_intronic (run_samples (process_sample_cur st rgfn pool) es (init_state dmi dme rgfn))
   = map (fun k => set_strategy (dmi || existsb (fun e => set_strategy (e_polya_high e) st) (firstn (Datatypes.S k) es)) st) (seq 0 (length es)).
 Proof. exact sticky_flags_characterisation. Qed.
 Print Assumptions C10_sticky_flags_characterisation_current_code.
 (* DatasetProcessor.alignment_stat_counter is never reset: __not_aligned of a later experiment includes the earlier experiments' reads *)
 Example C10_samples_independent_current_code_refuted_unaligned :
-  run_samples (process_sample_cur PAuto true) [ex_unmapped; ex_low] (init_state true true)
-  <> map (fun e => fst (process_sample_cur PAuto true e (init_state true true))) [ex_unmapped; ex_low].
+  run_samples (process_sample_cur PAuto false true) [ex_unmapped; ex_low] (init_state true true false)
+  <> map (fun e => fst (process_sample_cur PAuto false true e (init_state true true false))) [ex_unmapped; ex_low].
 Proof. exact samples_independent_refuted_unaligned. Qed.
 (* GraphBasedModelConstructor.detected_known_isoforms survives in the main process with --threads 1 (not with a process pool) *)
 Example C10_samples_independent_current_code_refuted_detected_threads1 :
-  run_samples (process_sample_cur PAuto false) [ex_low; ex_low] (init_state true true)
-  <> map (fun e => fst (process_sample_cur PAuto false e (init_state true true))) [ex_low; ex_low]
-  /\ run_samples (process_sample_cur PAuto true) [ex_low; ex_low] (init_state true true)
-  = map (fun e => fst (process_sample_cur PAuto true e (init_state true true))) [ex_low; ex_low].
+  run_samples (process_sample_cur PAuto false false) [ex_low; ex_low] (init_state true true false)
+  <> map (fun e => fst (process_sample_cur PAuto false false e (init_state true true false))) [ex_low; ex_low]
+  /\ run_samples (process_sample_cur PAuto false true) [ex_low; ex_low] (init_state true true false)
+  = map (fun e => fst (process_sample_cur PAuto false true e (init_state true true false))) [ex_low; ex_low].
 Proof. exact samples_independent_refuted_detected_threads1. Qed.
+
+(* ---- args.use_technical_replicas (the replica filter of the model constructor) is derived per experiment from read_group == "file_name" (rgfn) and
+        the experiment's number of files; it does not depend on the state left by earlier experiments *)
+Theorem C10_use_technical_replicas_frame : forall dmi dme st rgfn pool e g g',
+  o_replicas (fst (process_sample_fix dmi dme st rgfn pool e g)) = replicas_flag rgfn e /\
+  o_replicas (fst (process_sample_cur st rgfn pool e g)) = replicas_flag rgfn e /\
+  o_replicas (fst (process_sample_fix dmi dme st rgfn pool e g)) = o_replicas (fst (process_sample_fix dmi dme st rgfn pool e g')).
+Proof. exact use_technical_replicas_frame. Qed.
+Print Assumptions C10_use_technical_replicas_frame.
+Example C10_use_technical_replicas_example :
+  map o_replicas (run_samples (process_sample_fix true true PAuto true false) [ex_low; ex_replicas; ex_low; ex_replicas] (init_state true true true)) = [false; true; false; true].
+Proof. exact use_technical_replicas_example. Qed.
 
 (* ---- frame lemmas for the class-level set *)
 Theorem C10_detected_frame : forall regions D, (forall i, In i (concat regions) -> ~ In i D) ->
